@@ -233,7 +233,11 @@ func runC08(r *mc.Run) {
 	}
 	// 1b. every length from 0 to four times the field size (+1), contents = the quote's value repeated
 	for _, f := range optFields {
+		lens := c14FarLengths(f.len)
 		for n := 0; n <= 4*f.len+1; n++ {
+			lens = append(lens, n)
+		}
+		for _, n := range lens {
 			v := make([]byte, n)
 			for i := range v {
 				v[i] = raw0[f.off+i%f.len]
@@ -244,7 +248,11 @@ func runC08(r *mc.Run) {
 		}
 	}
 	for pos := 0; pos < 4; pos++ {
+		lens := c14FarLengths(48)
 		for n := 0; n <= 4*48+1; n++ {
+			lens = append(lens, n)
+		}
+		for _, n := range lens {
 			o := &validate.Options{}
 			for i := 0; i < 4; i++ {
 				o.TdQuoteBodyOptions.Rtmrs = append(o.TdQuoteBodyOptions.Rtmrs, append([]byte(nil), raw0[48+328+48*i:48+376+48*i]...))
@@ -533,26 +541,48 @@ func runC08(r *mc.Run) {
 			}
 		}
 	}
-	done := r.Parallel(len(cases), func(i int) {
-		c := cases[i]
-		if !r.Want(c.id) {
-			return
-		}
-		pol := polOf(c.opts)
-		err := safeValidateRaw(c.raw, c.opts)
-		out := c08Judge(r, c.id, kindOf(c.id), c.raw, pol, err)
-		// message entry point must agree with the raw one
-		if q, perr := safeToProto(c.raw); perr == nil {
-			e2 := safeValidate(q, c.opts)
-			if (e2 == nil) != (err == nil) && !world.IsPanic(err) {
-				r.Violate("raw-vs-message:"+kindOf(c.id), c.id, "validate.TdxQuote and validate.RawTdxQuote disagree", nil)
+	// everything is decided twice: with the library's logger at its default level and at verbosity 2 (what the
+	// tool's -verbosity flag sets) — what gets logged has no bearing on the verdict
+	var done int
+	for _, lvl := range []int{0, 2} {
+		lvl := lvl
+		world.SetLogLevel(lvl)
+		done += r.Parallel(len(cases), func(i int) {
+			c := cases[i]
+			if lvl != 0 {
+				// logging is slow: at verbosity 2 the single-field, length, list and fixed-bit cases, every 16th of the rest
+				switch kindOf(c.id) {
+				case "opt", "quote", "length", "straddle", "longlist", "nil-options-fields", "xfam", "tdattr", "svn":
+				default:
+					if i%16 != 0 {
+						return
+					}
+				}
+				c.id += ",log-level=2"
 			}
-		}
-		r.Eval(c.id, c.id != "nil-options-fields", kindOf(c.id)+":"+out)
-	})
-	r.SectionDone(mc.Section{Name: "policy-products", Evaluations: int64(done), Exhaustive: done == len(cases)})
+			if !r.Want(c.id) {
+				return
+			}
+			pol := polOf(c.opts)
+			err := safeValidateRaw(c.raw, c.opts)
+			out := c08Judge(r, c.id, kindOf(c.id), c.raw, pol, err)
+			// message entry point must agree with the raw one
+			if q, perr := safeToProto(c.raw); perr == nil {
+				e2 := safeValidate(q, c.opts)
+				if (e2 == nil) != (err == nil) && !world.IsPanic(err) {
+					r.Violate("raw-vs-message:"+kindOf(c.id), c.id, "validate.TdxQuote and validate.RawTdxQuote disagree", nil)
+				}
+			}
+			r.Eval(c.id, c.id != "nil-options-fields", kindOf(c.id)+":"+out)
+		})
+	}
+	world.SetLogLevel(0)
+	r.SectionDone(mc.Section{Name: "policy-products", Evaluations: int64(done), Exhaustive: done >= len(cases), Note: "every case at log level 0; single-field, length, list cases and every 16th of the rest again at log level 2"})
 	c08Histories(r, raw0)
 	c08MessageShapes(r, raw0)
+	world.SetLogLevel(2)
+	c08MessageShapes(r, raw0)
+	world.SetLogLevel(0)
 	// degenerate: nil options, wrong quote type
 	for name, fn := range map[string]func() error{
 		"nil-options":  func() error { return safeValidateRaw(raw0, nil) },
@@ -797,7 +827,7 @@ func c08MessageShapes(r *mc.Run, raw0 []byte) {
 	for i, a := range flds {
 		a := a
 		n := len(*a.get(q0.TdQuoteBody))
-		for _, d := range []int{-1, -8, -n, 1, 8} {
+		for _, d := range []int{-1, -8, -n, 1, 8, 255, 256, 257, 512, 65536} {
 			d := d
 			if -d > n {
 				continue
@@ -878,6 +908,9 @@ func c08MessageShapes(r *mc.Run, raw0 []byte) {
 	done := r.Parallel(len(jobs), func(i int) {
 		sh, ov := shapes[jobs[i].s], opts[jobs[i].o]
 		id := fmt.Sprintf("message-shape/%s/options=%s", sh.name, ov.name)
+		if world.LogLevel() != 0 {
+			id += ",log-level=2"
+		}
 		if !r.Want(id) {
 			return
 		}
@@ -900,6 +933,6 @@ func c08MessageShapes(r *mc.Run, raw0 []byte) {
 		}
 		r.Eval(id, sh.name != "genuine", fmt.Sprintf("message-shape:holds=%v:%s", want, out))
 	})
-	r.SectionDone(mc.Section{Name: "message-shapes", Evaluations: int64(done), Exhaustive: done == len(jobs),
+	r.SectionDone(mc.Section{Name: fmt.Sprintf("message-shapes/log-level=%d", world.LogLevel()), Evaluations: int64(done), Exhaustive: done == len(jobs),
 		Note: fmt.Sprintf("%d message shapes (single resizes and every ordered compensating pair over %d TD body fields) x %d option values", len(shapes), len(flds), len(opts))})
 }
